@@ -92,7 +92,14 @@ def call_op(mods, o, tree, tmpdir=None, sibling=False):
             import copy
             with contextlib.redirect_stdout(io.StringIO()), contextlib.redirect_stderr(io.StringIO()):
                 try:
-                    getattr(tf, name)(copy.deepcopy(tree), **params)
+                    sib = copy.deepcopy(tree)
+                    # every other sibling is shorter than the tree itself: rows that are out of range for it are
+                    # still due for the tree
+                    leaves = trees.terminals(sib)
+                    if len(leaves) >= 3 and tree.data.get('sid', 0) % 2 == 1 and len(o['rows']) % 2 == 1:
+                        for lf in leaves[-2:]:
+                            trees.delete_terminal(sib, lf)
+                    getattr(tf, name)(sib, **params)
                 except Exception:
                     pass
     if name == 'filter_by_length':
